@@ -31,17 +31,15 @@ FLAGS = ['notify_on_change', 'track_origin', 'enable_type_check', 'allow_writabl
          'as_sealed', 'allow_partial', 'auto_call_functors']
 TRI = ('allow_writable_accessors', 'as_sealed', 'allow_partial')      # accept None
 # managers of the registry that the harness does not drive (same primitive as a driven one)
-NOT_DRIVEN = {
-    'ContextualObject.override': 'same primitive (contextual_scope) as contextual_override; the per-object '
-                                 'threading.local is checked by T-SCOPE',
-}
+NOT_DRIVEN = {}
 PROCESS_WIDE = ('load_types_for_deserialization',)      # + dynamic_evaluate with pt=false
-DRIVEN = FLAGS + ['str_format', 'repr_format', 'permission', 'contextual_override', 'context',
+DRIVEN = FLAGS + ['str_format', 'repr_format', 'permission', 'contextual_override',
+                  'ContextualObject.override', 'context',
                   'view_options', 'view', 'preset_args', 'detour', 'apply_wrappers',
                   'load_types_for_deserialization', 'timeit', 'dynamic_evaluate', 'Functor.__call__']
 KIND = {
     'str_format': 'argScope', 'repr_format': 'argScope', 'permission': 'outermostWins',
-    'contextual_override': 'cascadeMap', 'context': 'stack:update', 'view_options': 'stack:deepMerge',
+    'contextual_override': 'cascadeMap', 'ContextualObject.override': 'cascadeMap', 'context': 'stack:update', 'view_options': 'stack:deepMerge',
     'view': 'stack:deepMerge',
     'preset_args': 'stack:preset', 'detour': 'stack:detour', 'apply_wrappers': 'stack:detour',
     'load_types_for_deserialization': 'stack:update', 'timeit': 'enterExit',
@@ -197,6 +195,12 @@ class Lib:
 
     self.Probe = Probe
     self.overrides = {}
+
+    class CtxObj(pg.ContextualObject):
+      x: int = SENTINEL
+      y: int = SENTINEL
+
+    self.ctxobj = CtxObj()      # ONE object shared by all threads: its overrides are per thread
     from pyglove.core.views import base as views_base
 
     class ProbeView(views_base.View):
@@ -263,6 +267,8 @@ class Lib:
       return self.coding.permission(self.coding.CodePermission(a))
     if name == 'contextual_override':
       return pg.contextual_override(**self.pykw(kw))
+    if name == 'ContextualObject.override':
+      return self.ctxobj.override(**{k: v['o'][0] for k, v in kw.items()})
     if name == 'context':
       return self.coding.context(**self.pykw(kw))
     if name == 'view_options':
@@ -325,6 +331,13 @@ class Lib:
       for k in sorted(pg.utils.contextual.all_contextual_values()):
         o = pg.utils.contextual.get_contextual_override(k)
         out[k] = {'o': [self.atom(o.value), bool(o.cascade), bool(o.override_attrs)]}
+      return {'f': out}
+    if name == 'ContextualObject.override':
+      out = {}
+      for k in ('x', 'y'):
+        v = getattr(self.ctxobj, k)
+        if not (isinstance(v, int) and not isinstance(v, bool) and v == SENTINEL):
+          out[k] = {'o': [self.atom(v), False, False]}
       return {'f': out}
     if name == 'context':
       return self.frame(self.coding.get_context())
@@ -767,6 +780,9 @@ def gen_arg(rng, name):
     return {'kw': {x: gen_val(rng) for x in keys}}
   if name == 'permission':
     return {'a': rng.choice([0, 1, 3, 8, 255, 2, 17])}
+  if name == 'ContextualObject.override':
+    keys = rng.sample(['x', 'y'], rng.randint(0, 2))
+    return {'kw': {k: {'o': [rng.choice([None, 0, 1, 7, False, True, 'a']), False, False]} for k in keys}}
   if name == 'contextual_override':
     keys = rng.sample(['cx', 'cy', 'cz'], rng.randint(0, 2))
     return {'kw': {x: {'o': [rng.choice(ATOMS), rng.chance(0.4), rng.chance(0.3)]} for x in keys}}
@@ -883,6 +899,8 @@ def falsy_args(name):
     return [{'a': 0}]
   if name == 'contextual_override':
     return [{'kw': {}}, {'kw': {'cx': {'o': [None, True, False]}}}, {'kw': {'cx': {'o': [0, False, True]}, 'cy': {'o': [False, False, False]}}}]
+  if name == 'ContextualObject.override':
+    return [{'kw': {}}, {'kw': {'x': {'o': [None, False, False]}, 'y': {'o': [0, False, False]}}}]
   if name == 'preset_args':
     return [{'kw': {}, 'name': 'global', 'inh': False}, {'kw': {}, 'name': 'global', 'inh': True},
             {'kw': {'k1': 0}, 'name': 'p1', 'inh': 'global'}]
